@@ -29,6 +29,12 @@ def make(i, tier):
     if cfg["store"] == "file":
         cfg["nodes"] = 1      # the file-backed configuration is a single-instance one (records live in memory)
     scn, models, skipped = E.gen_multi(rng, FAMILIES, tier, 4, cfg)
+    for ex in scn["executions"]:
+        # some executions are started the "low-level" way: a client publishes the start event to the shared queue,
+        # with or without an AMQP message id of its own
+        r = rng.random()
+        if r < 0.2:
+            ex["via"] = "raw" if r < 0.1 else "raw-noid"
     return seed, scn, models, skipped
 
 
